@@ -75,6 +75,7 @@ var c11L2Exprs = []struct {
 }{
 	{"a and (b or c) or d", func(a, b, c, d bool) bool { return a && (b || c) || d }},
 	{"not a or b and c", func(a, b, c, d bool) bool { return !a || b && c }},
+	{"not a and b", func(a, b, c, d bool) bool { return !a && b }}, // false when every feature is on
 }
 
 func c11Guard(kind c11Kind) {
@@ -91,6 +92,8 @@ func c11Guard(kind c11Kind) {
 	var fs meta.FeatureSet
 	if allow {
 		fs = meta.FeaturesOn(list)
+	} else if len(list) == 0 && vpBool() {
+		fs = meta.AllFeaturesOn()
 	} else {
 		fs = meta.FeaturesOff(list)
 	}
@@ -114,3 +117,23 @@ func H_C11_guard_uses()         { c11Guard(c11Kinds[6]) }
 func H_C11_guard_augment()      { c11Guard(c11Kinds[7]) }
 func H_C11_guard_refine()       { c11Guard(c11Kinds[8]) }
 func H_C11_guard_anydata()      { c11Guard(c11Kinds[9]) }
+
+// a malformed expression is an error under every feature configuration (also all-on / default options)
+func H_C11_guard_malformed() {
+	bad := []string{"a and", "(a", "a b", "not", "a or or b"}
+	e := bad[vpChoose(len(bad))]
+	text := c11Head + `leaf x { if-feature "` + e + `"; type string; }` + "\n}"
+	var opts Options
+	switch vpChoose(4) {
+	case 0: // default options
+	case 1:
+		opts.Features = meta.AllFeaturesOn()
+	case 2:
+		opts.Features = meta.FeaturesOn([]string{"a"})
+	case 3:
+		opts.Features = meta.FeaturesOff([]string{"a"})
+	}
+	_, err := LoadModuleFromStringWithOptions(nil, text, opts)
+	vpAssert(err != nil, "a malformed if-feature expression is an error, whatever the feature configuration")
+	vpCover("reached")
+}
